@@ -48,6 +48,10 @@ var (
 		"slice.Zip":          {TParams: []string{"a", "b"}, Params: ts(sl(a), sl(b)), Ret: sl(lang.TTuple(a, b))},
 		"slice.Forall":       {TParams: []string{"a"}, Params: ts(fn(ts(a), lang.TBool), sl(a)), Ret: lang.TBool},
 		"slice.TryFind":      {TParams: []string{"a"}, Params: ts(fn(ts(a), lang.TBool), sl(a)), Ret: lang.TTuple(a, lang.TBool)},
+		"dict.Keys":          {TParams: []string{"a", "b"}, Params: ts(lang.TDict(a, b)), Ret: sl(a)},
+		"dict.Values":        {TParams: []string{"a", "b"}, Params: ts(lang.TDict(a, b)), Ret: sl(b)},
+		"dict.ContainsKey":   {TParams: []string{"a", "b"}, Params: ts(lang.TDict(a, b), a), Ret: lang.TBool},
+		"dict.TryFind":       {TParams: []string{"a", "b"}, Params: ts(lang.TDict(a, b), a), Ret: lang.TTuple(b, lang.TBool)},
 		"strings.Length":     {Params: ts(lang.TString), Ret: lang.TInt},
 		"strings.Concat":     {Params: ts(lang.TString, sl(lang.TString)), Ret: lang.TString},
 		"strings.AppendTail": {Params: ts(lang.TString, lang.TString), Ret: lang.TString},
@@ -178,7 +182,7 @@ func lam(params []lang.Param, body *lang.Expr, t *lang.Type) *lang.Expr {
 // step adds one statement; returns false when the drawn producer is not applicable.
 func (g *fgen) step() bool {
 	I, S, B := lang.TInt, lang.TString, lang.TBool
-	switch g.n(19, "producer") {
+	switch g.n(21, "producer") {
 	case 0: // arithmetic with a typed operand
 		v := g.pick(ofType(I), "arithVar")
 		if v == nil {
@@ -484,6 +488,27 @@ func (g *fgen) step() bool {
 			g.bind(lang.Call("slice.Zip", t, g.use(v), g.use(w)), t, v.known && w.known)
 		}
 		g.labels["call of a generic library function"] = true
+	case 19, 20: // dictionaries: the type variables of a parameter may live only inside dict.Dict<K, V>
+		d := g.pick(func(x *gvar) bool { return x.t.K == "dict" }, "dictVar")
+		if d == nil {
+			return false
+		}
+		kt, vt := d.t.E[0], d.t.E[1]
+		switch g.n(4, "dictUse") {
+		case 0: // fixes neither K nor V
+			g.bind(&lang.Expr{K: "pipe", T: I, Args: []*lang.Expr{lang.Call("dict.Keys", sl(kt), g.use(d)), lang.Var("slice.Length", fn(ts(sl(kt)), I))}}, I, true)
+		case 1:
+			g.bind(lang.Call("dict.Keys", sl(kt), g.use(d)), sl(kt), d.known)
+		case 2:
+			g.bind(lang.Call("dict.Values", sl(vt), g.use(d)), sl(vt), d.known)
+		case 3: // a key of known type fixes K only
+			g.bind(lang.Call("dict.ContainsKey", B, g.use(d), litOf(kt, g)), B, true)
+		default: // TryFind destructured: V flows into a variable
+			n1, n2 := g.fresh("d"), g.fresh("d")
+			g.stmts = append(g.stmts, &lang.Stmt{K: "letd", Names: []string{n1, n2}, E: lang.Call("dict.TryFind", lang.TTuple(vt, B), g.use(d), litOf(kt, g))})
+			g.vars = append(g.vars, &gvar{name: n1, t: vt, known: d.known}, &gvar{name: n2, t: B, known: true})
+		}
+		g.labels["dictionary parameter (type variables inside dict.Dict<K, V>)"] = true
 	default: // Sprintf1 does not constrain its argument
 		v := g.pick(func(x *gvar) bool { return !x.fn }, "sprintfVar")
 		if v == nil {
@@ -496,7 +521,8 @@ func (g *fgen) step() bool {
 
 var paramTypes = []*lang.Type{lang.TInt, lang.TString, lang.TBool, lang.TInt, lang.TString, lang.TSlice(lang.TInt), lang.TSlice(lang.TString),
 	lang.TSlice(lang.TInt), lang.TSlice(lang.TString), lang.TTuple(lang.TInt, lang.TString), lang.TSlice(lang.TTuple(lang.TInt, lang.TString)),
-	lang.TTuple(lang.TInt, lang.TString), lang.TRec("RecP"), lang.TUnion("UniQ"), lang.TRec("GBox", lang.TString), lang.TUnion("OptG", lang.TInt)}
+	lang.TTuple(lang.TInt, lang.TString), lang.TRec("RecP"), lang.TUnion("UniQ"), lang.TRec("GBox", lang.TString), lang.TUnion("OptG", lang.TInt),
+	lang.TDict(lang.TString, lang.TInt), lang.TDict(lang.TInt, lang.TString), lang.TDict(lang.TString, lang.TInt)}
 
 // genFunc generates one fully typed function (all annotations present).
 func genFunc(rt *rapid.T, ctr *int, user []*userFn, labels map[string]bool) (*lang.FuncDecl, *userFn) {
@@ -519,6 +545,14 @@ func genFunc(rt *rapid.T, ctr *int, user []*userFn, labels map[string]bool) (*la
 		annot := g.n(2, "annot") == 0
 		f.Params = append(f.Params, lang.Param{Name: name, T: pt, Annot: annot})
 		g.vars = append(g.vars, &gvar{name: name, t: pt, known: annot})
+	}
+	// Go's dict.Dict needs a comparable key and fc emits the constraint any for every type parameter (a
+	// documented limit), so the key type of a dictionary parameter is always fixed by a use with a key
+	// literal; its value type may stay undetermined
+	for _, v := range g.vars {
+		if v.t.K == "dict" && !v.known {
+			g.bind(lang.Call("dict.ContainsKey", lang.TBool, g.use(v), litOf(v.t.E[0], g)), lang.TBool, true)
+		}
 	}
 	nst := 1 + g.n(7, "nstmts")
 	for i, tries := 0, 0; i < nst && tries < 40; tries++ {
@@ -871,6 +905,93 @@ func genFieldFunc(rt *rapid.T, ctr *int, labels map[string]bool) (*lang.FuncDecl
 	return f, u
 }
 
+// genResultOnlyFunc generates the "type variables only in the result" family: two or three lets bind
+// lambdas whose parameters are not annotated and not constrained, and the result is a tuple of them in an
+// order that differs from the order of the lets. The type parameters must be numbered by first occurrence
+// in the parameter list, then in the result type - not in the order the body introduces them.
+func genResultOnlyFunc(rt *rapid.T, ctr *int, labels map[string]bool) (*lang.FuncDecl, *userFn) {
+	g := &fgen{rt: rt, ctr: ctr, labels: labels}
+	I := lang.TInt
+	f := &lang.FuncDecl{Name: g.fresh("fn")}
+	var px *gvar
+	if g.n(1, "resultOnlyParam") == 0 {
+		name := g.fresh("p")
+		annot := g.n(2, "resultOnlyAnnot") == 0
+		f.Params = append(f.Params, lang.Param{Name: name, T: I, Annot: annot})
+		px = &gvar{name: name, t: I, known: annot}
+		g.vars = append(g.vars, px)
+	}
+	nl := 2 + g.n(1, "nLambdas")
+	var lams []*gvar
+	for i := 0; i < nl; i++ {
+		// the lambda's parameter type is a fresh variable; tvN stands for it in the generation-time type
+		tvn := tv(fmt.Sprintf("r%d", i))
+		x := g.fresh("x")
+		xv := lang.Var(x, tvn)
+		var body *lang.Expr
+		var rt2 *lang.Type
+		switch g.n(4, "lambdaShape") {
+		case 0:
+			body, rt2 = &lang.Expr{K: "slice", T: sl(tvn), Args: []*lang.Expr{xv}}, sl(tvn)
+		case 1:
+			body, rt2 = &lang.Expr{K: "tuple", T: lang.TTuple(tvn, tvn), Args: []*lang.Expr{xv, lang.Var(x, tvn)}}, lang.TTuple(tvn, tvn)
+		case 2:
+			body, rt2 = xv, tvn
+		case 3:
+			body, rt2 = lang.Call("GSome", lang.TUnion("OptG", tvn), xv), lang.TUnion("OptG", tvn)
+		default:
+			if px != nil {
+				body, rt2 = &lang.Expr{K: "tuple", T: lang.TTuple(tvn, I), Args: []*lang.Expr{xv, g.use(px)}}, lang.TTuple(tvn, I)
+			} else {
+				body, rt2 = &lang.Expr{K: "tuple", T: lang.TTuple(I, tvn), Args: []*lang.Expr{lang.Int(1), xv}}, lang.TTuple(I, tvn)
+			}
+		}
+		ft := fn(ts(tvn), rt2)
+		v := g.bind(lam([]lang.Param{{Name: x, T: tvn}}, body, ft), ft, false)
+		lams = append(lams, v)
+	}
+	order := rapid.Permutation(seqN(nl)).Draw(rt, "resultOrder")
+	var parts []*lang.Expr
+	var tsx []*lang.Type
+	for _, i := range order {
+		parts = append(parts, g.use(lams[i]))
+		tsx = append(tsx, lams[i].t)
+	}
+	sorted := true
+	for i, o := range order {
+		if o != i {
+			sorted = false
+		}
+	}
+	if !sorted {
+		labels["result-only type variables introduced in another order than the result mentions them"] = true
+	}
+	labels["type variables that occur only in the result"] = true
+	res := &lang.Expr{K: "tuple", T: lang.TTuple(tsx...), Args: parts}
+	f.Ret = res.T
+	f.Body = &lang.Block{Stmts: g.stmts, Final: res}
+	u := &userFn{name: f.Name, ret: f.Ret}
+	for _, q := range f.Params {
+		u.params = append(u.params, q.T)
+	}
+	return f, u
+}
+
+func hasTVar(t *lang.Type) bool {
+	if t == nil {
+		return false
+	}
+	if t.K == "tvar" {
+		return true
+	}
+	for _, e := range t.E {
+		if hasTVar(e) {
+			return true
+		}
+	}
+	return false
+}
+
 func seqN(n int) []int {
 	out := make([]int, n)
 	for i := range out {
@@ -1123,10 +1244,16 @@ func genCase(rt *rapid.T) (Case, map[string]bool, int, error) {
 	for i := 0; i < nf; i++ {
 		var f *lang.FuncDecl
 		var u *userFn
-		if k := rapid.IntRange(0, 3).Draw(rt, "staged"); k == 0 {
+		if k := rapid.IntRange(0, 5).Draw(rt, "staged"); k == 0 {
 			f, u = genStagedFunc(rt, &ctr, labels)
 		} else if k == 1 {
 			f, u = genFieldFunc(rt, &ctr, labels)
+		} else if k == 2 {
+			// not offered to later functions as a callee: Go cannot infer type parameters that occur only
+			// in the result, a call would need explicit type arguments
+			f, _ = genResultOnlyFunc(rt, &ctr, labels)
+			funcs = append(funcs, f)
+			continue
 		} else {
 			f, u = genFunc(rt, &ctr, user, labels)
 		}
@@ -1142,7 +1269,7 @@ func genCase(rt *rapid.T) (Case, map[string]bool, int, error) {
 				nErased++
 			}
 		}
-		if rapid.IntRange(0, 4).Draw(rt, "retAnnot") == 0 {
+		if rapid.IntRange(0, 4).Draw(rt, "retAnnot") == 0 && !hasTVar(f.Ret) {
 			f.RetAnnot = true
 		}
 	}
